@@ -77,8 +77,30 @@ Effect = Effect.create()
 
 GHOSTS = {
     'fs_kind': z3.ArraySort(StrS, KindS),     # real file system: Absent / File / Dir per path
-    'eff': z3.SeqSort(Effect),                # mutating primitives executed by the library so far
+    'eff': None,   # (set below) log of the mutating primitives executed by the library so far
     'ncalls': IntS,                           # number of user callbacks invoked so far
     'alloc': IntS,                            # allocation clock: object o exists iff birth(o) < alloc
+    'rm_attempts': z3.ArraySort(StrS, BoolS),  # directories on which os.rmdir has been attempted
     'fs_epoch': IntS,                         # bumped whenever file *contents/metadata* may change
 }
+
+
+# The effect trace is kept as a counter of mutating primitives attempted (plus the counter value
+# at which the backup directory was made).  Sequences / arrays of effects made the "only grows"
+# obligations time out (measured); what is executed where is pinned by the guard obligations at the
+# call sites, so the content of the trace is not needed.
+GHOSTS['eff'] = IntS
+GHOSTS['mkdtemp_at'] = IntS
+
+
+def log_append(lg, e):
+    return lg + 1
+
+
+def log_prefix(a, b):
+    """nothing is ever removed from the trace"""
+    return a <= b
+
+
+def log_len(a):
+    return a
